@@ -706,22 +706,29 @@ func (w *Worker) conv(fr *frame, instr ssa.Instruction, tDst, tSrc types.Type, x
 
 func (w *Worker) typeAssert(fr *frame, instr *ssa.TypeAssert, itf Iface) Value {
 	var v Value
-	errMsg := ""
+	fail := 0
 	if itf.T == nil {
-		errMsg = fmt.Sprintf("interface conversion: interface is nil, not %s", instr.AssertedType)
+		fail = 1
 	} else if idst, ok := instr.AssertedType.Underlying().(*types.Interface); ok {
 		v = itf
 		if !w.implements(itf.T, idst) {
-			errMsg = fmt.Sprintf("interface conversion: %v is not %v: missing method", itf.T, instr.AssertedType)
+			fail = 2
 		}
-	} else if types.Identical(itf.T, instr.AssertedType) {
+	} else if w.identical(itf.T, instr.AssertedType) {
 		v = itf.V
 	} else {
-		errMsg = fmt.Sprintf("interface conversion: interface is %s, not %s", itf.T, instr.AssertedType)
+		fail = 3
 	}
-	if errMsg != "" {
+	if fail != 0 {
 		if !instr.CommaOk {
-			fr.rtPanic(instr, errMsg)
+			switch fail {
+			case 1:
+				fr.rtPanic(instr, fmt.Sprintf("interface conversion: interface is nil, not %s", instr.AssertedType))
+			case 2:
+				fr.rtPanic(instr, fmt.Sprintf("interface conversion: %v is not %v: missing method", itf.T, instr.AssertedType))
+			default:
+				fr.rtPanic(instr, fmt.Sprintf("interface conversion: interface is %s, not %s", itf.T, instr.AssertedType))
+			}
 		}
 		return Tuple{zero(instr.AssertedType), mkBool(false)}
 	}
@@ -729,6 +736,21 @@ func (w *Worker) typeAssert(fr *frame, instr *ssa.TypeAssert, itf Iface) Value {
 		return Tuple{v, mkBool(true)}
 	}
 	return v
+}
+
+type typePair struct{ a, b types.Type }
+
+func (w *Worker) identical(a, b types.Type) bool {
+	if a == b {
+		return true
+	}
+	k := typePair{a, b}
+	if r, ok := w.identCache[k]; ok {
+		return r
+	}
+	r := types.Identical(a, b)
+	w.identCache[k] = r
+	return r
 }
 
 func (w *Worker) implements(t types.Type, iface *types.Interface) bool {
